@@ -4,7 +4,7 @@ C05 — load, edit, save, load preserves what the user did not touch.
 import ElfioVerif.Lemmas.Save
 import ElfioVerif.Props.C03
 namespace ElfioVerif.C05
-open Gen
+open Gen C03
 
 /-! ### 1. what `save` changes of the object -/
 
@@ -209,5 +209,112 @@ theorem image_bytes_at_same_vaddr {o : Obj} {os : OStream} {r : SaveRes} (hs : s
     | some d =>
       have := dat (by rw [hst]; exact n1) (by rw [hst]; exact n2) (by rw [hsz]; exact n3) d (by rw [hda]; exact hd)
       simpa only [SecBuf.view, hd, Option.getD_some, hsz] using this
+
+/-! ### 3. load after save -/
+
+/-- `secs`, `segs` are what a loader reports for image `img` in class `c`, byte order `enc` — stated
+    against the *specification's* decoder (that the model's `load` delivers exactly this on well-formed
+    images is C02: `shdr_fields_eq_spec`, `phdr_fields_eq_spec`, `ehdr_fields_eq_spec`).  Section `i`
+    is decoded from record `i` of the table at `e_shoff`; its data are the file bytes at its offset;
+    every address counts as set (`set_address(get_address())` at the end of `section::load`). -/
+structure Loaded (c : Cls) (enc : Enc) (secs : List SecBuf) (segs : List Seg) (img : Bytes) : Prop where
+  nsec : secs.length = Spec.get (Spec.ehdrL c) enc img 0 "e_shnum"
+  nseg : segs.length = Spec.get (Spec.ehdrL c) enc img 0 "e_phnum"
+  sec : ∀ (i : Nat) b, secs[i]? = some b →
+    let base := Spec.get (Spec.ehdrL c) enc img 0 "e_shoff" + Spec.get (Spec.ehdrL c) enc img 0 "e_shentsize" * i
+    let l := Spec.shdrL c
+    b.nameOff.toNat = Spec.get l enc img base "sh_name" ∧ b.stype.toNat = Spec.get l enc img base "sh_type" ∧
+    b.flags.toNat = Spec.get l enc img base "sh_flags" ∧ b.addr.toNat = Spec.get l enc img base "sh_addr" ∧
+    b.offset.toNat = Spec.get l enc img base "sh_offset" ∧ b.size.toNat = Spec.get l enc img base "sh_size" ∧
+    b.link.toNat = Spec.get l enc img base "sh_link" ∧ b.info.toNat = Spec.get l enc img base "sh_info" ∧
+    b.addrAlign.toNat = Spec.get l enc img base "sh_addralign" ∧
+    b.entSize.toNat = Spec.get l enc img base "sh_entsize" ∧ b.addrSet = true ∧
+    (b.stype ≠ BitVec.ofNat 32 SHT_NOBITS → b.stype ≠ BitVec.ofNat 32 SHT_NULL → b.size ≠ 0 →
+      b.view = slice img b.offset.toNat b.size.toNat)
+  seg : ∀ (j : Nat) g, segs[j]? = some g →
+    let base := Spec.get (Spec.ehdrL c) enc img 0 "e_phoff" + Spec.get (Spec.ehdrL c) enc img 0 "e_phentsize" * j
+    let l := Spec.phdrL c
+    g.stype.toNat = Spec.get l enc img base "p_type" ∧ g.flags.toNat = Spec.get l enc img base "p_flags" ∧
+    g.vaddr.toNat = Spec.get l enc img base "p_vaddr" ∧ g.paddr.toNat = Spec.get l enc img base "p_paddr" ∧
+    g.memsz.toNat = Spec.get l enc img base "p_memsz" ∧ g.align.toNat = Spec.get l enc img base "p_align"
+
+/-- sections carry their position as index (every created or loaded object below 65536 sections) -/
+def SecIdxOk (secs : List SecBuf) : Prop := ∀ (k : Nat) b, secs[k]? = some b → b.index = k
+
+/-- **loaded_resave_fields** : save an object and load the result (`o2`: any object that is `Loaded`
+    from the saved bytes).  Then `o2` has as many sections and segments as `o` (mod 2^16), and — in the
+    same order — every section has the same name offset, type, flags, size, link, info, alignment,
+    entry size, the same address if `o`'s section had one (for a loaded `o` every section has), and
+    the same data if it is file-occupying, non-empty and its data were in memory with a buffer of at
+    least `size` bytes; every segment has the same type, flags, virtual and physical address, an
+    alignment and (ELF64) a memory size of at least the old ones.  Hypotheses as `save_decode_fields`
+    (incl. C04's `LayoutOk` on the saved object) plus index bookkeeping. -/
+theorem loaded_resave_fields {o : Obj} {os : OStream} {r : SaveRes} (hs : save o os = .ok r) (hok : r.ok = true)
+    (hg : os.Good) (htr : o.trans = []) (hidx : SegIdxOk o.segs) (hsidx : SecIdxOk o.secs) {h hd : Bytes}
+    (hh : r.obj.hdr = some h) (hhd : o.hdr = some hd) (hlen : ehdrSize o.cls ≤ hd.length)
+    (hl : LayoutOk r.obj.cls r.obj.enc h r.obj.secs r.obj.segs)
+    (hfit : ∀ a ∈ o.secs, FieldsFit o.cls a) (hsegfit : ∀ g ∈ r.obj.segs, SegFit o.cls g)
+    {secs2 : List SecBuf} {segs2 : List Seg} (hld : Loaded o.cls o.enc secs2 segs2 r.os.content) :
+    secs2.length = o.secs.length % 65536 ∧ segs2.length = o.segs.length % 65536 ∧
+    (∀ (i : Nat) a b2, o.secs[i]? = some a → secs2[i]? = some b2 →
+      b2.nameOff = a.nameOff ∧ b2.stype = a.stype ∧ b2.flags = a.flags ∧ b2.size = a.size ∧ b2.link = a.link ∧
+      b2.info = a.info ∧ b2.addrAlign = a.addrAlign ∧ b2.entSize = a.entSize ∧ b2.addrSet = true ∧
+      (a.addrSet = true → b2.addr = a.addr) ∧
+      (a.stype ≠ BitVec.ofNat 32 SHT_NOBITS → a.stype ≠ BitVec.ofNat 32 SHT_NULL → a.size ≠ 0 →
+        (∃ d, a.data = some d ∧ a.size.toNat ≤ d.length) → b2.view = a.view)) ∧
+    (∀ (j : Nat) g g2, o.segs[j]? = some g → segs2[j]? = some g2 →
+      g2.stype = g.stype ∧ g2.flags = g.flags ∧ g2.vaddr = g.vaddr ∧ g2.paddr = g.paddr ∧
+      g.align.toNat ≤ g2.align.toNat ∧ (o.cls = .c64 → g.memsz.toNat ≤ g2.memsz.toNat)) := by
+  obtain ⟨_, _, _, _, _, _, _, _, _, _, esn, epn⟩ := save_decode_header hs hok hg htr hh hhd hlen hl
+  obtain ⟨dsec, dseg⟩ := save_decode_fields hs hok hg htr hidx hh hl hfit hsegfit
+  -- the table positions read from the image are the saved header's
+  obtain ⟨hd', h', e1, e2, key⟩ := save_header_fields hs hok
+  rw [hhd] at e1; cases e1
+  rw [hh] at e2; cases e2
+  have hlh : ehdrSize o.cls ≤ h.length := by rw [(key hlen).1]; exact hlen
+  obtain ⟨_, _, _, _, a4, a5, _, _, a8, _, a10, _, _⟩ := C02.ehdr_fields_eq_spec o.cls o.enc h hlh
+  have at0 := save_image_header hs hok hg htr hh hlh hl
+  have vn : ∀ name ∈ ["e_shoff", "e_shentsize", "e_phoff", "e_phentsize"], ValidName (Spec.ehdrL o.cls) name := by
+    cases o.cls <;> decide
+  have eshoff := (at0 "e_shoff" (vn _ (by decide))).trans a5.symm
+  have eshent := (at0 "e_shentsize" (vn _ (by decide))).trans a10.symm
+  have ephoff := (at0 "e_phoff" (vn _ (by decide))).trans a4.symm
+  have ephent := (at0 "e_phentsize" (vn _ (by decide))).trans a8.symm
+  refine ⟨hld.nsec.trans esn, hld.nseg.trans epn, ?_, ?_⟩
+  · intro i a b2 ha hb2
+    obtain ⟨l0, l1, l2, l3, l4, l5, l6, l7, l8, l9, l10, l11⟩ := hld.sec i b2 hb2
+    obtain ⟨d0, d1, d2, d3, d4, d5, d6, d7, d8, d9⟩ := dsec i a ha
+    have ei : a.index = i := hsidx i a ha
+    simp only [eshoff, eshent] at l0 l1 l2 l3 l4 l5 l6 l7 l8 l9
+    simp only [ei] at d0 d1 d2 d3 d4 d5 d6 d7 d8 d9
+    have est : b2.stype = a.stype := BitVec.eq_of_toNat_eq (l1.trans d1)
+    have esz : b2.size = a.size := BitVec.eq_of_toNat_eq (l5.trans d3)
+    refine ⟨BitVec.eq_of_toNat_eq (l0.trans d0), est, BitVec.eq_of_toNat_eq (l2.trans d2), esz,
+      BitVec.eq_of_toNat_eq (l6.trans d4), BitVec.eq_of_toNat_eq (l7.trans d5),
+      BitVec.eq_of_toNat_eq (l8.trans d6), BitVec.eq_of_toNat_eq (l9.trans d7), l10,
+      fun hset => BitVec.eq_of_toNat_eq (l3.trans (d8 hset)), fun n1 n2 n3 n4 => ?_⟩
+    obtain ⟨d, hdat, hdl⟩ := n4
+    have v2 := l11 (by rw [est]; exact n1) (by rw [est]; exact n2) (by rw [esz]; exact n3)
+    have v1 := d9 n1 n2 n3 (by rw [hdat]; rfl)
+    have hvl : a.view.length = a.size.toNat := by
+      simp only [SecBuf.view, hdat, Option.getD_some, List.length_take]; omega
+    rw [v2, l4, esz, ← hvl]
+    exact v1
+  · intro j g g2 hgj hg2
+    obtain ⟨l0, l1, l2, l3, l4, l5⟩ := hld.seg j g2 hg2
+    obtain ⟨d0, d1, d2, d3, d4, d5⟩ := dseg j g hgj
+    have ej : g.index = j := hidx j g hgj
+    simp only [ephoff, ephent] at l0 l1 l2 l3 l4 l5
+    simp only [ej] at d0 d1 d2 d3 d4 d5
+    refine ⟨BitVec.eq_of_toNat_eq (l0.trans d0), BitVec.eq_of_toNat_eq (l1.trans d1),
+      BitVec.eq_of_toNat_eq (l2.trans d2), BitVec.eq_of_toNat_eq (l3.trans d3), by rw [l5]; exact d4, ?_⟩
+    intro hc
+    rw [l4]; exact d5 hc
+
+/-- names: a section's name is read from the name table (section `e_shstrndx`) at its name offset;
+    table content and name offsets survive (`loaded_resave_fields`), so the names do — for every
+    resolver that is a function of table bytes and offset (`C08.get_refines`: the accessor is). -/
+theorem loaded_resave_names {st st2 a b2 : SecBuf} (hv : st2.view = st.view) (hn : b2.nameOff = a.nameOff) :
+    Spec.strAt st2.view b2.nameOff.toNat = Spec.strAt st.view a.nameOff.toNat := by rw [hv, hn]
 
 end ElfioVerif.C05
